@@ -569,6 +569,9 @@ func (s *Sched) doClose(t *thread, id uintptr) {
 	t.hash = mix(t.hash, 45, 0)
 }
 
+// HashStates switches the computation of state keys on (needed for pruning only).
+var HashStates = true
+
 // DataHash, if set by the harness for the current execution, returns a hash of the shared
 // data the program's mutexes protect (evaluated while every thread is parked). With it, a
 // lock acquisition folds the data the thread can now read into its local history and the
@@ -584,6 +587,9 @@ var EnvHash func() uint64
 //
 //go:norace
 func (s *Sched) touchObj(t *thread, obj uintptr, kind uint64) {
+	if !HashStates {
+		return
+	}
 	if DataHash != nil {
 		t.hash = mix(t.hash, DataHash(), kind)
 		return
@@ -763,7 +769,11 @@ func (s *Sched) choose(kind string, n, nthreads int, runningEnabled bool, opts [
 		}
 	}
 	s.choices = append(s.choices, c)
-	s.hashes = append(s.hashes, s.stateHash())
+	if HashStates {
+		s.hashes = append(s.hashes, s.stateHash())
+	} else {
+		s.hashes = append(s.hashes, 0)
+	}
 	s.points = append(s.points, Point{Kind: kind, N: n, NThreads: nthreads, Chosen: c, RunningEnabled: runningEnabled, Options: opts})
 	return c
 }
